@@ -35,4 +35,13 @@ TEXTS = {
                     "Counter-example search with shrinking; no claim beyond the explored classes."),
         level_note=("Trusted: the harness's own rotation/anisotropic distance and selection logic (harness/common/geo_common.hpp), rapidcheck. "
                     "n<=80 samples, <=3-D; ties and boundary samples are excluded by construction as the property excludes them.")),
+    "C20": dict(
+        engine="rapidcheck",
+        technique="property-based testing (rapidcheck): lattice polygons and off-boundary query points level with vertices/edges; oracle = exact integer even-odd rule, truth known by construction; convex hull vs exact hull",
+        design_ref="DESIGN.md §5 C20",
+        level_text=("Exploration: hundreds of thousands (quick) to tens of millions (thorough) of inclusion queries on generated simple polygons whose "
+                    "geometry is exact in binary, compared with an exact integer oracle; polygon sets, vertical limits, db_polygon and convex hulls likewise. "
+                    "Counter-example search with shrinking."),
+        level_note=("Trusted: 64-bit integer cross products of the harness, rapidcheck. All generated coordinates are dyadic; points nearer to the boundary than "
+                    "the lattice step are not generated (the property excludes boundary points).")),
 }
